@@ -21,7 +21,7 @@ var (
 	rLOs = []string{"l1", "l2"}
 )
 
-func (d *rdriver) pick(n int) int { return d.rng.Intn(n) }
+func (d *rdriver) pick(n int) int    { return d.rng.Intn(n) }
 func (d *rdriver) chance(p int) bool { return d.rng.Intn(100) < p }
 
 func (d *rdriver) knownFiles() [][]byte {
